@@ -9,10 +9,13 @@ import (
 	"time"
 
 	plugin "simworld/goplugin"
+	"simworld/goplugin/runner"
 	"simworld/h"
 	"simworld/k"
+	"simworld/shim/simexec"
 
 	"github.com/anishathalye/porcupine"
+	hclog "github.com/hashicorp/go-hclog"
 )
 
 // C19: a Client launches its plugin at most once and its accessors are idempotent.
@@ -22,13 +25,13 @@ var c19Ops = []string{"Start", "Client", "Protocol", "ReattachConfig", "ID", "Ex
 func init() {
 	Register(&Prop{ID: "C19",
 		Meta: Meta{Level: "exploration", Race: true,
-			Rule: "one Client; a history of 2-8 operations over {Start, Client, Protocol, ReattachConfig, ID, Exited, Kill} issued sequentially or from up to 4 concurrent goroutines with drawn offsets; plugin kinds {starts correctly net/rpc, starts correctly gRPC, fails the handshake, times out, exits early} x launch {command, custom runner}; all sequences of length <=3 over {Start, Client, Kill} enumerated per plugin kind and launch, longer and concurrent histories seeded with schedule noise in Client.Start/Client/Kill; thorough tier repeats a sample under the race detector. Oracle: the kernel saw at most one spawn for this client (and no spawn after Kill returned), every successful Start returned the identical address and every successful Client the identical protocol client, no call hangs or panics, and the invoke/return history (stamped with the simulator's global event sequence numbers) is linearizable (porcupine) against a sequential reference model of the Client: {fresh, started(addr), failed, killed}",
+			Rule:       "one Client; a history of 2-8 operations over {Start, Client, Protocol, ReattachConfig, ID, Exited, Kill} issued sequentially or from up to 4 concurrent goroutines with drawn offsets; plugin kinds {starts correctly net/rpc, starts correctly gRPC, fails the handshake, times out, exits early} x launch {command, custom runner}; all sequences of length <=3 over {Start, Client, Kill} enumerated per plugin kind and launch, longer and concurrent histories seeded with schedule noise in Client.Start/Client/Kill; thorough tier repeats a sample under the race detector. Oracle: the kernel saw at most one spawn for this client (and no spawn after Kill returned), every successful Start returned the identical address and every successful Client the identical protocol client, no call hangs or panics, and the invoke/return history (stamped with the simulator's global event sequence numbers) is linearizable (porcupine) against a sequential reference model of the Client: {fresh, started(addr), failed, killed}",
 			Exhaustive: "all operation sequences of length <=3 over {Start, Client, Kill} x plugin kind x launch method"},
 		Plan: func(tier string, seed uint64, stage int, prev []*h.Result) []*k.Spec {
 			if stage > 0 {
 				return nil
 			}
-			kinds := []string{"ok-netrpc", "ok-grpc", "bad-handshake", "timeout", "exits-early"}
+			kinds := []string{"ok-netrpc", "ok-grpc", "bad-handshake", "timeout", "exits-early", "runner-start-fails"}
 			launches := []string{"cmd", "runner"}
 			var out []*k.Spec
 			if tier != "selftest" {
@@ -202,6 +205,21 @@ func runC19(r *h.Run) {
 	case "exits-early":
 		c.Proto, c.Path = "netrpc", "/bin/exits"
 		r.InstallScript(c.Path, &h.Script{End: "exit:3"})
+	}
+	if kind == "runner-start-fails" {
+		// the runner's Start launches the process and then reports a failure
+		c.Proto, c.Launch = "netrpc", "runner"
+		r.InstallPlugin(&c)
+		c.TweakClient = func(cc *plugin.ClientConfig) {
+			rf := cc.RunnerFunc
+			cc.RunnerFunc = func(l hclog.Logger, cmd *simexec.Cmd, tmpDir string) (runner.Runner, error) {
+				rr, err := rf(l, cmd, tmpDir)
+				if sr, ok := rr.(*h.SimRunner); ok {
+					sr.StartFailsAfterLaunch = true
+				}
+				return rr, err
+			}
+		}
 	}
 	cl := r.NewClient(c)
 
